@@ -258,3 +258,311 @@ def sample_shell_contract(G):
                1: LoopSpec(inv=inv1),
                2: LoopSpec(inv=inv2, prepare=prepare2)})
     return c
+
+
+# ---------------------------------------------------------------------------
+# small helpers shared by the remaining contracts
+
+SHELL_ARRAYS = ['shell_n', 'shell_n_sample', 'shell_n_eff', 'shell_log_l_min',
+                'shell_log_l', 'shell_log_v']
+
+
+def snapshotting(contract, G):
+    """wrap contract.pre so that the entry state is recorded in G['old'] when
+    the function body is verified (used by loop invariants for old(...))"""
+    orig = contract.pre
+
+    def pre(V):
+        out = orig(V)
+        snap = V.st.copy()
+        snap.env = dict(V.st.env)
+        G['old'] = snap
+        return out
+    contract.pre_verify = pre
+    return contract
+
+
+def same_arr(a, b):
+    return A.arr_eq(a, b)
+
+
+def unchanged_except(new, old, idx):
+    return z3.And(new.n == old.n, A.forall_idx(
+        old.n, lambda i: z3.Implies(i != idx, new.at(i) == old.at(i))))
+
+
+# ---------------------------------------------------------------------------
+# pure accessors / helpers that Sampler methods call (assumed here; their own
+# purity is proved in C11, their values in C02)
+
+def pure_contract(name, params=(), defaults=None, result=None, pre=None):
+    return FnContract(SQ + name, params=params, defaults=defaults or {},
+                      result=result or (lambda ex, st, V: None), pre=pre)
+
+
+def getter_real(name):
+    return pure_contract(name, result=lambda ex, st, V: fresh('real', name))
+
+
+def f_live_contract():
+    def result(ex, st, V):
+        # None once explored, a real number before
+        return MaybeNone(V.bool('self.explored'), fresh('real', 'f_live'))
+    return pure_contract('f_live', result=result)
+
+
+def print_status_contract():
+    return pure_contract('print_status', params=['status', 'header', 'end'],
+                         defaults=dict(status='', header=False, end='\n'))
+
+
+def write_contract():
+    return pure_contract('write', params=['filepath', 'overwrite'],
+                         defaults=dict(overwrite=False))
+
+
+def write_shell_update_contract():
+    return pure_contract('write_shell_update', params=['filepath', 'shell'])
+
+
+def compute_bound_contracts(reg):
+    """constructors of bounds: return a fresh bound object"""
+    def fresh_bound(ex, st, V, nb_class):
+        b = fresh('Bound', 'new_bound')
+        st.assume(M.isNB(b.t) == nb_class)
+        # object allocation: a new object is younger than every existing one
+        clock = M.clock(st)
+        st.assume(M.born(b.t) == clock)
+        st.ghost['clock'] = clock + 1
+        return b
+
+    def uc_result(ex, st, V):
+        return fresh_bound(ex, st, V, False)
+
+    def nb_result(ex, st, V):
+        ex.reg.havoc_ghost(ex, st, 'rng')
+        return fresh_bound(ex, st, V, True)
+    reg.add_contract(FnContract(
+        'nautilus.bounds.basic.UnitCube.compute', params=['n_dim', 'rng'],
+        defaults=dict(rng=None), result=uc_result))
+    reg.add_contract(FnContract(
+        'nautilus.bounds.nautilus.NautilusBound.compute',
+        params=['points', 'log_l', 'log_l_min', 'log_v_target',
+                'enlarge_per_dim', 'n_points_min', 'split_threshold',
+                'periodic', 'n_networks', 'neural_network_kwargs', 'pool',
+                'rng'],
+        defaults=dict(enlarge_per_dim=1.1, n_points_min=None,
+                      split_threshold=100, periodic=None, n_networks=4,
+                      neural_network_kwargs=None, pool=None, rng=None),
+        result=nb_result, mod_ghost=['rng']))
+
+
+# ---------------------------------------------------------------------------
+# evaluate_likelihood (body verified in C03)
+
+def evaluate_likelihood_contract():
+    def pre(V):
+        p = V('points')
+        return [('points_in_cube', A.forall_idx(
+            p.n, lambda j: incube(p.at(j)))),
+            ('at_least_one_point', p.n >= 1)]
+
+    def result(ex, st, V):
+        p = V('points')
+        ll = st.alloc(A.fresh_arr(st, 'real', 'log_l_new', n=p.n), 'log_l_new')
+        bl = MaybeNone(z3.Not(M.HAS_BLOBS), st.alloc(
+            A.fresh_arr(st, 'Blob', 'blobs_new', n=p.n), 'blobs_new'))
+        return (ll, bl)
+
+    def post(Vo, Vn, res):
+        ex, st = Vn.ex, Vn.st
+        p = Vo('points')
+        ll = ex.deref(st, res[0])
+        bl = ex.deref(st, res[1].val)
+        dt = Vn.raw('self.blobs_dtype')
+        dtn = dt.isnone if isinstance(dt, MaybeNone) else z3.BoolVal(dt is None)
+        return [
+            ('post_len', z3.And(ll.n == p.n, bl.n == p.n)),
+            ('post_values', A.forall_idx(p.n, lambda j: z3.And(
+                ll.at(j) == L(p.at(j)), bl.at(j) == Bl(p.at(j))))),
+            ('post_n_like', Vn.int('self.n_like') ==
+             Vo.int('self.n_like') + p.n),
+            ('post_dtype_known', z3.Implies(M.HAS_BLOBS, z3.Not(dtn))),
+        ]
+    return FnContract(SQ + 'evaluate_likelihood', params=['points'], pre=pre,
+                      post=post, result=result,
+                      mod_fields=['n_like', 'blobs_dtype'])
+
+
+# ---------------------------------------------------------------------------
+# update_shell_info
+
+def update_shell_info_contract(with_S=False):
+    def pre(V):
+        b = S(V, 'bounds')
+        idx = norm(V.int('index'), b.n)
+        out = [('index_in_range', z3.And(idx >= 0, idx < b.n,
+                                         V.int('index') >= -b.n))]
+        out += M.inv_P1(V)
+        out += M.inv_rows_aligned(V)
+        out += M.inv_exp_arrays(V)
+        return out
+
+    def post(Vo, Vn, res):
+        b = S(Vo, 'bounds')
+        idx = norm(Vo.int('index'), b.n)
+        out = []
+        for nm in ('shell_n', 'shell_log_v', 'shell_log_l', 'shell_n_eff'):
+            out.append(('frame_' + nm, unchanged_except(
+                S(Vn, nm), S(Vo, nm), idx)))
+        out += M.S1_at(Vn, idx)
+        return out
+    return FnContract(SQ + 'update_shell_info', params=['index'], pre=pre,
+                      post=post, mod_fields=['shell_n', 'shell_log_v',
+                                             'shell_log_l', 'shell_n_eff'])
+
+
+# ---------------------------------------------------------------------------
+# add_bound
+
+def total_len(L_, st=None):
+    """sum of the lengths of a list of arrays (same uninterpreted sum as
+    np.sum of an int array, so that np.sum(shell_n) can be related to it)"""
+    from pyvc.lib import sum_term
+    return sum_term(st, Arr(L_.n, L_.alen, 'int'))
+
+
+def add_bound_contract(G):
+    def pre(V):
+        nb = S(V, 'bounds').n
+        out = M.InvAll(V)
+        out.append(('exploring', z3.Not(V.bool('self.explored'))))
+        out.append(('enough_points_for_live_set', z3.Implies(
+            nb >= 1, total_len(S(V, 'log_l'), V.st) > V.int('self.n_live'))))
+        return out
+
+    def result(ex, st, V):
+        return fresh('bool', 'added')
+
+    def post(Vo, Vn, res):
+        out = M.InvAll(Vn)
+        nbo, nbn = S(Vo, 'bounds').n, S(Vn, 'bounds').n
+        out.append(('bound_count', nbn == z3.If(B(res), nbo + 1, nbo)))
+        out.append(('first_bound_always_added', z3.Implies(nbo == 0, B(res))))
+        out.append(('still_exploring', z3.Not(Vn.bool('self.explored'))))
+        out.append(('n_like_unchanged',
+                    Vn.int('self.n_like') == Vo.int('self.n_like')))
+        return out
+
+    def prepare0(ex, st):
+        self_ = st.env['self']
+        for (f, k) in (('shell_t', 'int'), ('points_t', 'Pt'),
+                       ('log_l_t', 'real'), ('blobs_t', 'Blob')):
+            v = st.getfield(self_, f)
+            if isinstance(v, Ref) and isinstance(st.cell(v), PyList) and \
+                    not st.cell(v).items:
+                st.set_cell(v, FlatList(0, A.fresh_arr(st, k, f, n=0)))
+        snap = st.copy()
+        snap.env = dict(st.env)
+        G['pre_loop'] = snap
+
+    def inv0(V):
+        b = S(V, 'bounds')
+        nb = b.n
+        kk = V.k(0)
+        pts, ll = S(V, 'points'), S(V, 'log_l')
+        i, j, k = A.qi('i'), A.qi('j'), A.qi('k')
+        out = [('lists_aligned', z3.And(
+            pts.n == nb, ll.n == nb,
+            *[S(V, a).n == nb for a in SHELL_ARRAYS]))]
+        out.append(('rows_in_own_bound', z3.ForAll([i, j], z3.Implies(
+            z3.And(i >= 0, i < nb, j >= 0, j < pts.alen(i)),
+            z3.And(incube(pts.at(i, j)), C(b.at(i), pts.at(i, j)))))))
+        out.append(('rows_in_no_later_old_bound', z3.ForAll(
+            [i, j, k], z3.Implies(
+                z3.And(i >= 0, i < k, k < nb - 1, j >= 0, j < pts.alen(i)),
+                z3.Not(C(b.at(k), pts.at(i, j)))))))
+        out.append(('processed_rows_outside_new_bound', z3.ForAll(
+            [i, j], z3.Implies(
+                z3.And(i >= 0, i < kk, j >= 0, j < pts.alen(i)),
+                z3.Not(C(b.at(nb - 1), pts.at(i, j)))))))
+        out.append(('new_shell_empty', pts.alen(nb - 1) == 0))
+        out.append(('rows_aligned', A.forall_idx(
+            nb, lambda t: ll.alen(t) == pts.alen(t))))
+        out.append(('shell_n_counts', A.forall_idx(nb, lambda t: z3.And(
+            S(V, 'shell_n').at(t) == ll.alen(t),
+            S(V, 'shell_n').at(t) <= S(V, 'shell_n_sample').at(t)))))
+        bn, bl = blobs_of(V)
+        if bl is not None:
+            out.append(('blobs_aligned', z3.Implies(z3.Not(bn), z3.And(
+                bl.n == nb, A.forall_idx(
+                    nb, lambda t: bl.alen(t) == pts.alen(t))))))
+        # transfer lists
+        sh, pt, lt = S(V, 'shell_t'), S(V, 'points_t'), S(V, 'log_l_t')
+        out.append(('transfer_lists_shape', z3.And(
+            sh.cnt == kk, pt.cnt == kk, lt.cnt == kk,
+            sh.flat.n == pt.flat.n, lt.flat.n == pt.flat.n)))
+        btn, blt = blobs_of(V, 'blobs_t')
+        if isinstance(blt, FlatList):
+            out.append(('transfer_blobs_shape', z3.Implies(
+                z3.Not(bn), z3.And(blt.cnt == kk,
+                                   blt.flat.n == pt.flat.n))))
+        f = pt.flat
+        s_ = sh.flat
+        out.append(('transfer_candidates', z3.And(
+            z3.ForAll([j], z3.Implies(
+                z3.And(j >= 0, j < f.n),
+                z3.And(incube(f.at(j)), C(b.at(nb - 1), f.at(j)),
+                       s_.at(j) >= 0, s_.at(j) < kk,
+                       C(b.at(s_.at(j)), f.at(j))))),
+            z3.ForAll([j, k], z3.Implies(
+                z3.And(j >= 0, j < f.n, k > s_.at(j), k < nb - 1),
+                z3.Not(C(b.at(k), f.at(j))))))))
+        return out
+
+    return FnContract(
+        SQ + 'add_bound', params=['verbose'], defaults=dict(verbose=False),
+        pre=pre, post=post, result=result,
+        mod_fields=['bounds', 'points', 'log_l', 'blobs', 'shell_t',
+                    'points_t', 'log_l_t', 'blobs_t'] + SHELL_ARRAYS,
+        mod_ghost=['rng', 'sstate'],
+        loops={0: LoopSpec(inv=inv0, prepare=prepare0)})
+
+
+# ---------------------------------------------------------------------------
+# add_samples
+
+def add_samples_contract():
+    def pre(V):
+        nb = S(V, 'bounds').n
+        sh = V.int('shell')
+        out = M.InvAll(V)
+        out.append(('shell_in_range', z3.And(sh >= -1, sh < nb, nb >= 1)))
+        out.append(('last_shell_by_minus_one_only_while_exploring', z3.Implies(
+            sh == -1, z3.Not(V.bool('self.explored')))))
+        return out
+
+    def result(ex, st, V):
+        r = fresh('int', 'n_update')
+        st.assume(r.t >= 0)
+        return r
+
+    def post(Vo, Vn, res):
+        out = M.InvAll(Vn)
+        out.append(('one_batch_evaluated', Vn.int('self.n_like') ==
+                    Vo.int('self.n_like') + Vo.int('self.n_batch')))
+        out.append(('bounds_unchanged', A.arr_eq(
+            Arr(S(Vn, 'bounds').n, S(Vn, 'bounds').fn, 'Bound'),
+            Arr(S(Vo, 'bounds').n, S(Vo, 'bounds').fn, 'Bound'))))
+        out.append(('explored_unchanged', Vn.bool('self.explored') ==
+                    Vo.bool('self.explored')))
+        out.append(('n_update_bounded', z3.And(
+            I(res) >= 0, I(res) <= Vo.int('self.n_batch'))))
+        return out
+    return FnContract(
+        SQ + 'add_samples', params=['shell', 'verbose'],
+        defaults=dict(verbose=False), pre=pre, post=post, result=result,
+        mod_fields=['points', 'log_l', 'blobs', 'shell_t', 'n_like',
+                    'blobs_dtype', 'shell_n_sample', 'shell_n', 'shell_log_v',
+                    'shell_log_l', 'shell_n_eff'],
+        mod_ghost=['rng', 'sstate'])
